@@ -330,10 +330,30 @@ def name4(ctx) -> List[Ob]:
     return out
 
 
+def _is_generator_copy(e: ast.AST) -> Optional[str]:
+    """a generator built from (a copy of) another generator's counters: both count on independently from
+    the same numbers, so the graphs they serve hand out the same names"""
+    if not isinstance(e, ast.Call):
+        return None
+    fn_ = (A.dotted(e.func) or "").split(".")[-1]
+    args = list(e.args) + [k.value for k in e.keywords]
+    if fn_ == "NameGenerator" and args:
+        if any(isinstance(x, ast.Attribute) and x.attr in ("kinds", "name_gen") for a in args for x in ast.walk(a)):
+            return f"the generator is a copy of another generator's counters ({A.unparse(e)[:50]}): the copy and the original count on independently from the same numbers, so a graph and its sub-graphs hand out the same names"
+    if fn_ in ("copy", "deepcopy", "replace") and args and any(isinstance(x, ast.Attribute) and x.attr == "name_gen" or (isinstance(x, ast.Name) and "gen" in x.id) for x in ast.walk(args[0])):
+        return f"the generator is a copy ({A.unparse(e)[:50]}): the copy and the original count on independently, so names repeat across the hierarchy"
+    return None
+
+
 def _gen_provenance(ctx, fn: FunctionInfo, ng: ast.AST, use: ast.AST, depth: int = 0) -> Tuple[str, str]:
     cfg = ctx.cfg(fn)
     if isinstance(ng, ast.Attribute) and ng.attr == "name_gen":
         return "ok", f"shares the generator of the graph the blocks come from ({A.unparse(ng)})"
+    copy_why = _is_generator_copy(ng)
+    if copy_why:
+        return "bad", copy_why
+    if isinstance(ng, ast.Call) and (A.dotted(ng.func) or "").split(".")[-1] == "NameGenerator" and not ng.args and not ng.keywords:
+        return "bad", "a fresh NameGenerator() is attached to a graph that already contains blocks: the first generated names repeat names present in the graph"
     if isinstance(ng, ast.Name) and depth < 4:
         params = [p.arg for p in fn.params]
         res = []
@@ -366,6 +386,10 @@ def _gen_provenance(ctx, fn: FunctionInfo, ng: ast.AST, use: ast.AST, depth: int
                 res.append(("unknown", "generator bound by an unknown construct"))
                 continue
             v = ap[1]
+            cw = _is_generator_copy(v)
+            if cw:
+                res.append(("bad", cw))
+                continue
             if isinstance(v, ast.Call) and (A.dotted(v.func) or "").split(".")[-1] == "NameGenerator":
                 # fresh generator: it must be seeded from the names present before it is used
                 un = cfg.node_of(use)
